@@ -110,7 +110,7 @@ func (p *c09) Init(tier string) {
 	p.nBytes = len(p.alpha)*len(p.alpha) + 1
 }
 
-func (p *c09) NumCases() int { return p.nGram + 3 + p.nBytes }
+func (p *c09) NumCases() int { return p.nGram + 3 + p.nBytes + 1 }
 
 // selectors of grammar case i: first step s1 = menu[i / (n+1)], second step s2 = menu[i % (n+1) - 1]
 // (none when 0), then every third step from the (tier-dependent) menu plus the 2-step selector itself.
@@ -134,6 +134,9 @@ func (p *c09) Describe(i int) any {
 		return map[string]any{"selector_prefix": selText(steps), "then": "itself and every extension by one more step of the menu, also with mix=> / distinct=> / bogus=> in front; on 13 documents; cold cache, warm cache, and after use on another document"}
 	case i < p.nGram+3:
 		return map[string]any{"kind": "documented examples and keep=> forms"}
+	}
+	if i == p.nGram+3+p.nBytes {
+		return map[string]any{"kind": "cache saturation: all byte strings of length <= 3 (thorough 4) as selectors in one process (4368 / 69904 distinct cache entries), then fresh spellings of 7 grammar selectors must still evaluate per the reference"}
 	}
 	return map[string]any{"kind": fmt.Sprintf("all byte strings of length <= %d over %q with this 2-byte prefix, as selectors on 3 documents: value or error, never a panic; document unchanged", p.blen, string(p.alpha)), "prefix_index": i - p.nGram - 3}
 }
@@ -298,10 +301,77 @@ func (p *c09) RunCase(i int) *core.CaseResult {
 			p.checkSel(r, e.steps)
 			p.docs, p.dnames = save, saveN
 		}
-	default:
+	case i < p.nGram+3+p.nBytes:
 		p.runBytes(r, i-p.nGram-3)
+	default:
+		p.runSaturation(r)
 	}
 	return r
+}
+
+// runSaturation: the selector cache is process-wide and never evicted.  After several thousand
+// distinct selectors have been evaluated in this process, selectors never seen before (fresh
+// spellings of grammar selectors) must still evaluate per the reference, and so must old ones.
+func (p *c09) runSaturation(r *core.CaseResult) {
+	genql.VerifResetSelectorCache()
+	n := 0
+	var rec func(s string)
+	rec = func(s string) {
+		if s != "" {
+			gq.Reader(p.docs[1](), s)
+			r.Execs++
+			n++
+		}
+		if len(s) == 3 {
+			return
+		}
+		for _, c := range p.alpha {
+			rec(s + string(c))
+		}
+	}
+	probes := [][]selStep{
+		{key("a"), key("a")}, {key("b"), idx(false, di(1))}, {key("a"), key("zz")}, {key("b"), idx(false, di(7))},
+		{key("a"), key("b"), key("c")}, {key("b"), idx(false, dr(0, 2))}, {key("b"), idx(false, de())},
+	}
+	check := func(round int) {
+		for k, steps := range probes {
+			// a spelling that has not been evaluated before: extra blanks between the steps
+			text := strings.ReplaceAll(selText(steps), ".", strings.Repeat(" ", round+1)+".")
+			text = strings.ReplaceAll(text, "[", strings.Repeat(" ", round+1)+"[")
+			want, werr := refSelect(p.docs[1](), steps)
+			got, err, pan := gq.Reader(p.docs[1](), text)
+			r.Execs++
+			switch {
+			case pan != "":
+				r.Fail("C09|saturation|panic", fmt.Sprintf("after %d distinct selectors, %q panicked: %s", n, text, pan), map[string]any{"selector": text, "distinct_selectors_before": n})
+			case (werr != nil) != (err != nil) || (werr == nil && !selEqual(got, want)):
+				r.Fail("C09|saturation|wrong-value", fmt.Sprintf("after %d distinct selectors had been evaluated in this process, the fresh selector %q (probe %d) returned %s / %v; reference %s / %v", n, text, k, gq.Render(got), err, refShow(want), werr), map[string]any{"selector": text, "distinct_selectors_before": n, "doc": p.docs[1]()})
+			default:
+				r.Nontrivial = true
+			}
+		}
+	}
+	check(0)
+	rec("")
+	check(1)
+	if p.tier == "thorough" {
+		var rec4 func(s string)
+		rec4 = func(s string) {
+			if len(s) == 4 {
+				gq.Reader(p.docs[1](), s)
+				r.Execs++
+				n++
+				return
+			}
+			for _, c := range p.alpha {
+				rec4(s + string(c))
+			}
+		}
+		rec4("")
+		check(2)
+	}
+	r.Count("distinct_selectors_in_one_process", int64(n))
+	genql.VerifResetSelectorCache()
 }
 
 func (p *c09) runBytes(r *core.CaseResult, pi int) {
